@@ -33,7 +33,7 @@ from ..harness import c17_wire as W
 LEVEL = 'fault_enumeration'
 RESET_EVERY = 192  # frames per connection before a fresh one is made (bounds the history to bisect)
 RETRY_VIRTUAL_SECONDS = 40.0
-FAST_GUARD = 0.5  # CPU seconds; used once a busy-loop site has been confirmed with the full guard
+FAST_GUARD = 0.25  # CPU seconds; used once a busy-loop site has been confirmed with the full guard
 
 
 # ---------------------------------------------------------------------------
@@ -358,11 +358,14 @@ def _work(item):
             muts = allm[idx::n]
         hist: list[tuple] = []
         seen: dict = {}
+        fast_guard = False
         for mut in muts:
             descr, chan, data = mut
             if bed is None:
                 bed = B.BEDS[bed_name](seed)
                 hist = []
+                if fast_guard:
+                    bed.guard_seconds = FAST_GUARD
             status, info = evaluate(bed, mut, seen)
             out = info['out']
             st.case((bed_name, chan, data))
@@ -417,6 +420,11 @@ def _work(item):
             bed.close()
             bed = None
             kind = info['kind']
+            if kind in ('busy_loop', 'recursion', 'step_budget'):
+                pk = (bed_name, kind, info.get('site'))
+                if pk in seen:
+                    hist = []
+                    continue
             m = minimise(bed_name, seed, hist, mut, kind)
             hist = []
             if m is None:
@@ -425,6 +433,11 @@ def _work(item):
                 continue
             frames, (s2, info2) = m
             site = info2.get('site') or '?'
+            if kind in ('busy_loop', 'recursion', 'step_budget'):
+                seen[(bed_name, kind, site)] = kind
+                seen[(bed_name, kind, info.get('site'))] = kind
+                if kind == 'busy_loop':
+                    fast_guard = True  # a spinning site is confirmed with the full guard: later firings are only counted
             if 'prov' in info:
                 seen[info['prov']] = kind
             if 'prov' in info2:
